@@ -1,13 +1,16 @@
 #!/bin/bash
-# runs every seeded change against the quick check of its property; output: work/sweep.log
+# runs seeded changes (optionally only those matching a glob) against the quick check of their property; output: work/sweep.log (appended/updated)
 cd /verif
-: > work/sweep.log
-for d in seeded/*/; do
+pat="${1:-*}"
+touch work/sweep.log
+for d in seeded/$pat/; do
   n=$(basename $d); prop=${n%-*}
+  [ -f $d/patch.diff ] || continue
+  grep -v "^$n " work/sweep.log > work/sweep.tmp; mv work/sweep.tmp work/sweep.log
   if ! git -C /repo apply --check /verif/$d/patch.diff 2>/dev/null; then echo "$n APPLY-FAIL" >> work/sweep.log; continue; fi
   out=$(lib/mutest.sh /verif/$d/patch.diff $prop quick 2>&1)
   rc=$(echo "$out" | grep -o "exit=[0-9]*" | tail -1)
-  first=$(echo "$out" | grep -m1 "kind=" | cut -c1-200)
+  first=$(echo "$out" | grep -m1 "kind=" | cut -c1-160 | iconv -c -f utf-8 -t utf-8)
   echo "$n $rc $first" >> work/sweep.log
 done
-echo DONE >> work/sweep.log
+echo "DONE $pat" >> work/sweep.log
